@@ -42,9 +42,11 @@ func NewMerger(
 	otherSums [][]byte,
 	logger logr.Logger,
 ) (m *Merger, err error) {
+	// errChan: one slot per differ goroutine, one for mergeTables and one for the collector;
+	// each reports at most one error and none may block on it
 	m = &Merger{
 		db:             db,
-		errChan:        make(chan error, len(otherTs)),
+		errChan:        make(chan error, len(otherTs)+2),
 		progressPeriod: progressPeriod,
 		baseT:          baseT,
 		otherTs:        otherTs,
